@@ -267,6 +267,8 @@ fn oracle_inner(c: &Case, ctx: &mut Ctx, run: &mut Run, trace: &mut Vec<String>)
 		run.sim.disconnect(v, x);
 	}
 	let mut jo = JusticeOracle::new(&run.sim, v, chan, tk.clone());
+	// observations about get_claimable_balances (beyond the property statement: labels, never failures)
+	let mut obs: std::collections::BTreeSet<&'static str> = std::collections::BTreeSet::new();
 	// X's off-node wallet (fee inputs of anchor-type HTLC transactions) and the blocks before the cheat
 	let fund = stale.wallet_funding_tx(4);
 	let h0 = run.sim.height_of(v);
@@ -290,7 +292,9 @@ fn oracle_inner(c: &Case, ctx: &mut Ctx, run: &mut Run, trace: &mut Vec<String>)
 	}
 	jo.scan(&run.sim, hb)?;
 	jo.mark_durable();
-	jo.check_balances(&run.sim)?;
+	if let Some(l) = jo.observe_balances(&run.sim) {
+		obs.insert(l);
+	}
 
 	let mut x_confirmed: Vec<Transaction> = vec![];
 	let mut reloads = 0;
@@ -367,7 +371,9 @@ fn oracle_inner(c: &Case, ctx: &mut Ctx, run: &mut Run, trace: &mut Vec<String>)
 		if run.sim.height_of(v) != hb || matches!(st, Step::Reload { .. }) {
 			jo.mark_durable();
 		}
-		jo.check_balances(&run.sim)?;
+		if let Some(l) = jo.observe_balances(&run.sim) {
+			obs.insert(l);
+		}
 		if ctx.replay {
 			dump_nonidempotent_monitor(&run.sim, v, chan);
 		}
@@ -380,7 +386,9 @@ fn oracle_inner(c: &Case, ctx: &mut Ctx, run: &mut Run, trace: &mut Vec<String>)
 		run.deliver_all();
 		jo.scan(&run.sim, hb)?;
 		jo.mark_durable();
-		jo.check_balances(&run.sim)?;
+		if let Some(l) = jo.observe_balances(&run.sim) {
+			obs.insert(l);
+		}
 		let cands = jo.v_mineable(&run.sim);
 		let open = jo.statuses(&run.sim, run.sim.chain.height()).iter().any(|(_, _, s)| matches!(s, Status::Open(_)));
 		if cands.is_empty() && !open {
@@ -402,11 +410,19 @@ fn oracle_inner(c: &Case, ctx: &mut Ctx, run: &mut Run, trace: &mut Vec<String>)
 		let hb = run.sim.height_of(v);
 		run.mine(&mut stale, vec![], true);
 		jo.scan(&run.sim, hb)?;
-		jo.check_balances(&run.sim)?;
+		if let Some(l) = jo.observe_balances(&run.sim) {
+			obs.insert(l);
+		}
 	}
 	run.sim.c06_monitor_events(v);
 	jo.scan(&run.sim, run.sim.height_of(v))?;
 	jo.finish(&run.sim)?;
+	if jo.balances_left(&run.sim) {
+		obs.insert("obs:balances-not-empty-at-end");
+	}
+	for l in obs.iter() {
+		ctx.label(l);
+	}
 	// V's ChannelManager events (payment failures, ChannelClosed ...) are handled only now: handling them makes
 	// the manager send ReleasePaymentComplete monitor updates, and TestChainMonitor then runs its own
 	// write->read equality self-check (C12's matter), which is known to trip after a claim package was split
@@ -514,9 +530,10 @@ fn main() {
 	let mut c = Check::new("C06", "exploration");
 	let thorough = c.tier() == Tier::Thorough;
 	let known: Vec<String> = load_known_findings("C06").into_iter().filter(|k| k.status == "known").map(|k| k.key).collect();
-	c.assume("V is an unmodified LDK node; X follows the protocol during the history and cheats only by confirming a revoked commitment and the HTLC transactions its own out-of-date ChannelMonitor produces for it (preimages X's monitor knew while that state was current)");
-	c.assume("the chain simulator (libbitcoinconsensus scripts, nLockTime, BIP-68, fee >= 0) is ground truth; relay policy, pinning and reorgs are out of scope; V's transactions are mined within the schedule and always before X's CSV matures");
-	c.assume("V lags the chain by at most 7 blocks; a conflict of a V transaction with a spend confirmed above the height V had been told about is benign; fee monotonicity uses a 2% tolerance");
+	c.assume("V is an unmodified LDK node; X follows the protocol during the history and cheats only by confirming a revoked commitment and the HTLC-success/-timeout transactions its own out-of-date ChannelMonitor produces for it (preimages X's monitor knew while that state was current; anchor types pay fees from X's own wallet through BumpTransactionEventHandlerSync)");
+	c.assume("the chain simulator (libbitcoinconsensus scripts, nLockTime, BIP-68, fee >= 0) is ground truth; relay policy, pinning and reorgs are out of scope; every still-valid transaction V has broadcast gets mined in the end game, always before X's CSV (144) on the contested outputs matures");
+	c.assume("V lags the chain by at most 7 blocks; a V transaction conflicting with a spend confirmed above the height V had been told about (or above the height of the persisted monitor it was reloaded from), a replaced/duplicate broadcast and a child of V's own unconfirmed transaction are benign; fee monotonicity compares re-issues with the identical set of contested inputs, continues from the persisted state after a reload (rebroadcast_pending_claims persists nothing) and uses a 2% tolerance");
+	c.assume("V's ChannelManager events are handled only at the end of a case (chain-monitor events all along): handling them triggers TestChainMonitor's serialization self-check, which is C12's tripwire and is labelled foreign-failure:C12:monitor-roundtrip; get_claimable_balances is compared with the ground truth as an observation only (labels obs:*), the property statement does not constrain it");
 	c.part_with(
 		PartSpec {
 			name: "revoked-broadcast",
